@@ -1377,6 +1377,11 @@ class SpaceManager(SharedSpaceOperations):
 
         # FIX: Creating a Cells of the same name in ``space``
 
+        if name is not None and not is_valid_name(name):
+            # Not silently named after the formula or automatically,
+            # possibly onto an existing cells
+            raise ValueError("Invalid name '%s'." % name)
+
         if name is None and formula is not None:
             # The cells will be named after its formula:
             # that name must be as free as a given one
